@@ -244,6 +244,89 @@ def rule_quoted_identifiers_kept(ctx):
     ctx.floor("C12.j generated statements", n, 3)
 
 
+def rule_conditions_keep_grouping(ctx):
+    """C12.k: a WHEN condition is conjoined with the join predicate as one unit: a disjunction the user wrote in parentheses
+    reaches the generated statements inside its parentheses (`join AND (a OR b)`, never `join AND a OR b`)."""
+    prog = ctx.prog
+
+    def ident(n):
+        return NodeV("Identifier", {"this": Const(n), "quoted": Const(False)}, name=f"id:{n}", open=False)
+
+    def col(t, c):
+        return node("Column", f"{t}.{c}", this=ident(c), table=ident(t))
+
+    def cond(tag):
+        o = node("Or", f"or_{tag}", this=node("EQ", this=col("SRC", "FLAG"), expression=lit("1", False)),
+                 expression=node("EQ", this=col("SRC", "FLAG"), expression=lit("2", False)))
+        pr = node("Paren", f"paren_{tag}", this=o)
+        o.parent = pr
+        return pr
+
+    def merge():
+        on = node("EQ", "on", this=col("TGT", "ID"), expression=col("SRC", "ID"))
+        ins = node("Insert", this=node("Tuple", expressions=Lst([col("TGT", "ID")])), expression=node("Tuple", expressions=Lst([col("SRC", "ID")])))
+        whens = Lst([node("When", "w0", matched=Const(True), then=node("Var", this=Const("DELETE")), condition=cond("m")),
+                     node("When", "w1", matched=Const(False), then=ins, condition=cond("n"))])
+        return node("Merge", "merge", this=node("Table", "TGT", this=ident("TGT")), using=node("Table", "SRC", this=ident("SRC")),
+                    on=on, expressions=whens)
+
+    def bare_or(v, under_and):
+        """an Or node reachable from v without passing its parentheses, below a conjunction"""
+        if not isinstance(v, NodeV):
+            return False
+        if v.cls == "Paren":
+            return False
+        if v.cls == "Or":
+            return under_and
+        if v.cls == "And":
+            return bare_or(v.args.get("this"), True) or bare_or(v.args.get("expression"), True)
+        return False
+
+    m = prog.mod("transforms_merge")
+    n = 0
+    for fname in ("_create_merge_candidates", "_mutations", "_counts"):
+        if not prog.has_fn("transforms_merge", fname):
+            continue
+        for p in explore(prog, lambda: ExecHooks(None), lambda I, fname=fname: I.call(I.global_lookup("transforms_merge", fname), [merge()], {}, None),
+                         max_paths=32):
+            if p.outcome != "return":
+                continue
+            stmts = p.value.items if isinstance(p.value, Lst) else [p.value]
+            for st in stmts:
+                src = getattr(st, "parsed_from", None)
+                if not isinstance(src, Str):
+                    continue
+                n += 1
+                bad = []
+
+                def scan(parts, prev_text=""):
+                    for x in parts:
+                        if isinstance(x, str):
+                            prev_text = x
+                            continue
+                        if isinstance(x, Str):
+                            scan(x.parts, prev_text)
+                        elif isinstance(x, Sym) and x.origin and x.origin[0] == "sql" and isinstance(x.origin[1], NodeV):
+                            nd = x.origin[1]
+                            after_and = bool(re.search(r"\bAND\s*$", prev_text, re.I))
+                            if bare_or(nd, after_and):
+                                bad.append(nd.name)
+                        elif isinstance(x, Sym) and x.origin and x.origin[0] == "join":
+                            seq = x.origin[2] if len(x.origin) > 2 else None
+                            for y in (getattr(seq, "items", None) or []):
+                                if isinstance(y, Str):
+                                    scan(y.parts, "")
+                scan(src.parts)
+                ctx.ob("C12.k", f"{fname}: a parenthesised disjunction in a WHEN condition stays grouped", not bad, m.path, str(bad))
+                if bad:
+                    ctx.violation("C12.k", "transforms_merge", fname, "WHEN condition conjoined without its parentheses", m.path,
+                                  f"{fname} conjoins the WHEN condition `(a OR b)` with another predicate after stripping its parentheses: the text reads "
+                                  f"`<join> AND a OR b`, so rows that satisfy only `b` are treated as matched (deleted / updated / counted) whatever "
+                                  f"the join predicate says")
+            break
+    ctx.floor("C12.k generated statements", n, 2)
+
+
 class MergeHooks(FullHooks):
     def external(self, I, d, args, kwargs, site):
         if d in ("sqlglot.parse_one",) and isinstance(kwargs.get("read"), Const) and kwargs["read"].v == "snowflake":
@@ -331,6 +414,7 @@ def rule_lifetime_and_bracket(ctx):
 from .c19 import rule_temporary_stays_private  # noqa: E402  (the helper is TEMPORARY in the template *and* at the engine)
 
 RULES = [
+    ("C12.k", rule_conditions_keep_grouping, ("quick", "thorough")),
     ("C12.j", rule_quoted_identifiers_kept, ("quick", "thorough")),
     ("C12.d2", rule_temporary_stays_private, ("quick", "thorough")),
     ("C12.a", rule_keyword_compare, ("quick", "thorough")),
